@@ -77,7 +77,11 @@ def main(argv):
             if not fm or fm.group(1) not in fnames or fm.group(1) in mod.UNIT.get('exclude', {}): break
             first = next((l for l in err.splitlines() if 'error' in l), err.strip().splitlines()[-1] if err.strip() else '?')
             mod.UNIT.setdefault('exclude', {})[fm.group(1)] = '%s: sliced text is not C (%s)' % (fm.group(1), first.strip()[:200])
-            recs = emit(name, mod)
+            try:
+                recs = emit(name, mod)
+            except slicer.SliceError as e:
+                print('INCONCLUSIVE: slicer: %s' % e); inconclusive.append('slicer[%s]: %s' % (name, e)); recs = None; break
+        if recs is None: continue
         units[name] = (mod, jobs); slice_recs[name] = recs
         dropped = {rec['name'] for rec in recs if rec.get('rules', {}).get('R-loop.dropped')}
         if dropped:
